@@ -267,6 +267,53 @@ PROPS = {
         level_text="48 theorems: each public jacobian_* method of PoseR2/R3/SE2/SE3, as regenerated from the current source, is the Frechet derivative (Mathlib HasFDerivAt) of the named operation w.r.t. the named operand at every real operand; compact variants are the leading rows; documented shapes equal actual shapes. The translator is validated every run against the real methods.",
         level_note="Trusted: Lean kernel, Mathlib's analysis library, the py2lean translator (validated at Float every run). Real arithmetic, not IEEE-754. SE(2) theorems exclude the wrap discontinuity of the result angle.",
     ),
+    "C17": dict(
+        modules=["GraphSlam.Props.C17"],
+        theorem_files=["GraphSlam/Props/C17.lean"],
+        scan_files=["GraphSlam/Props/C17/*.lean", "GraphSlam/Model/Equals.lean", "GraphSlam/Model/CmpCommon.lean"],
+        drivers=("gsdriver_cmp",),
+        needs_generated=False,
+        corr=[("harness.equals", "entry", dict())],
+        search=("search.equals", "entry"),
+        replay=("search.equals", "replay"),
+        rule="every pair of real objects is abstracted (harness/cmpobj.py reads the objects' own attributes) to the descriptors of Model/Equals.lean, the model is run at Float by gsdriver_cmp, "
+        "and the outcome True/False/<exception class> is compared exactly with x.equals(y) in both directions, with the default tolerance (argument omitted) and tol=1e-3: "
+        "poses 4x4 kinds x {generic, zero, 1e3-scaled} x every component and all components x magnitudes tol*max(norm,tol)*10^k (k=-12..3, plus 0.3/0.45/2.2/3.5) x both signs; vertices (ids, kinds, magnitudes); "
+        "edges: every base edge (4 classes x 14 estimate kinds x 6 offset kinds x 3 offset ids x base magnitudes) x every one-factor deviation (class, ids count/value/order, information shape/value, estimate kind/shape/value, "
+        "offset kind/value, offset id), two-factor deviations (2% sample quick, exhaustive thorough), random two-sided deviations; graphs: lengths, order, element perturbation, raising element before/after a False element, edges-before-vertices, "
+        "seeded random graphs; malformed stream (None/ndarray offsets, None estimates, pose arrays of wrong length: exception class mirrored); asymmetry stream with tol=3. "
+        "Pairs with some block ratio in [0.5,2] of the threshold are skipped (counted as skipped_band). non-trivial = the two objects have the same class",
+        assumptions=["real arithmetic (floats: finite numbers; rounding of the norm only matters inside the skipped band)", "tol > 0",
+                     "well-formed objects: pose arrays have their class's length; estimate is a pose / ndarray / scalar (not None); a landmark edge's offset is a pose (not None, not a plain ndarray); "
+                     "information is an ndarray; ids are ints; custom edge classes derive directly from BaseEdge and do not override equals"],
+        technique="Lean 4 proof over R about a hand-written model of the five equals methods (Except PyErr Bool), tied to the code by exhaustive-table correspondence at Float",
+        level_text="49 theorems, for every tol>0 and all array/list lengths, at each of pose/vertex/edge/graph: total (no exception on well-formed pairs), equals_iff (True exactly when the discrete skeletons agree and every numeric block "
+        "has |a-b| < tol*max(|a|,tol), |.| = Euclidean/Frobenius norm, proved equal to Mathlib's EuclideanSpace norm), refl, small_pert (incl. |a-b|<tol^2), large_pert (incl. one component off by the threshold, |a-b| >= tol(|a|+tol)), "
+        "discrete_diff_false (class, ids count/value/order, information shape, estimate class/shape, offset class, offset id, pose class, list lengths, any position of a list), symm_outside_band; "
+        "plus two theorems that ill-formed objects do raise (None offset: AttributeError; None estimate: TypeError).",
+        level_note="Trusted: Lean kernel, Mathlib reals/sqrt, the hand model (tied every run by 0.34M/2.4M exact outcome comparisons), harness abstraction functions. NaN/inf data are outside the theorems (a NaN information matrix compares equal to anything: noted).",
+    ),
+    "C18": dict(
+        modules=["GraphSlam.Props.C18"],
+        theorem_files=["GraphSlam/Props/C18.lean"],
+        scan_files=["GraphSlam/Props/C18/*.lean", "GraphSlam/Model/Validity.lean", "GraphSlam/Model/CmpCommon.lean"],
+        drivers=("gsdriver_cmp",),
+        needs_generated=False,
+        corr=[("harness.validity", "entry", dict())],
+        search=("search.validity", "entry"),
+        replay=("search.validity", "replay"),
+        rule="Graph(edges, vertices) on real objects vs Model/Validity.lean `construct` (gsdriver_cmp): accepted / KeyError / AssertionError compared exactly; for accepted graphs `edge.vertices[k] is vertices[j]` for the index j the model reports, "
+        "every gradient_index and _len_gradient. Table: edge class (odometry, landmark, 4 custom) x vertex count 1..3 x pose class of each endpoint x estimate class (4 poses, ndarray, None, float) x offset class x information shape (r,c) in 1..7^2 "
+        "x id present/absent, vertex list = rotating permutation of the endpoints plus a distractor: 592704 rows, all in thorough; quick = every row with at most one violated requirement + seeded 5% of the rest. "
+        "Plus non-2-D information shapes, seeded random multi-edge graphs (duplicate ids, unknown ids, several invalid edges), and is_valid() called directly on unbound / hand-bound edges. non-trivial = class has a typing rule",
+        assumptions=["vertex ids are ints (hashable, compared by ==)", "vertex poses are instances of the four pose classes", "edge.information is an ndarray", "python is not run with -O (the assert is stripped there: noted, not modelled)",
+                     "custom edge classes decide validity themselves (a parameter of the model; four concrete ones in the harness)"],
+        technique="Lean 4 proof about a hand-written model of Graph._initialize / _is_valid / is_valid (Except PyErr BoundGraph), tied to the code by exhaustive-table correspondence",
+        level_text="20 theorems for all list lengths: bind_by_id / bind_by_id_unique / bind_perm_invariant (unique ids: position k is bound to the vertex with id vertex_ids[k], independent of the order of the vertex list), bind_last_wins (duplicate ids), "
+        "unknown_id_raises, bind_raises_iff, valid_iff_welltyped_odometry/_landmark (is_valid() <-> the docstring rule), constructor_keyError_iff, constructor_assertionError_iff, constructor_accepts_iff, constructor_raises_iff, constructor_error_classes, "
+        "constructor_binds_by_id, gradient_index_layout (prefix sums of compact dimensionalities).",
+        level_note="Trusted: Lean kernel, the hand model (tied every run by 0.11M/0.63M exact comparisons incl. object identity), harness abstraction. Under `python -O` the assert is stripped and ill-typed edges are accepted (not modelled).",
+    ),
 }
 
 NOT_APPLICABLE = {}
